@@ -650,7 +650,7 @@ class UnitInterp:
                 self.ev(fn, a, st, depth)
             for k in e.keywords:
                 self.ev(fn, k.value, st, depth)
-            st.impl_calls.append(e)
+            st.impl_calls.append((e, list(st.groups)))
             return Bare("data", "impl")
         if ftxt in STRIP:
             v = self.ev(fn, e.args[0], st, depth) if e.args else Bare()
